@@ -9,7 +9,7 @@ from wire import hx
 
 KIND = "board"
 SPECS = ["C18"]
-THEOREMS = ["C18.run_spec", "C18.bringup_final", "C18.coop_success", "C18.coop_spec", "C18.model_verdict",
+THEOREMS = ["C18.run_spec", "C18.run_monitor", "C18.coopB_sound", "C18.monitorOk_unfold", "C18.bringup_final", "C18.coop_success", "C18.coop_spec", "C18.model_verdict",
             "C18.C18_unfold", "C18.accepted_start", "C18.deadline_linux", "C18.deadline_uboot",
             "C18.timeout_only_when_configured", "C18.ok_only_at_end", "C18.credentials", "C18.password_skipped",
             "C18.hitOf_sound", "C18.bootlogs", "C18.log_grows", "C18.f10_asIs_rejected",
@@ -47,6 +47,18 @@ def run_impl(line):
 
 def _events(obs):
     return obs.split()[3:]
+
+
+_lean = None
+
+
+def is_coop(line):
+    """does the case satisfy the hypotheses of theorem (c)?  (`Spec.coopB`, decided by the Lean driver)"""
+    global _lean
+    if _lean is None:
+        from leanproc import Lean
+        _lean = Lean()
+    return _lean.ask("coop " + line) == "1"
 
 
 def classify(line, obs):
@@ -87,6 +99,7 @@ def classify(line, obs):
         elif e.startswith("l/"):
             last = "linux"
     ks.append("reached=" + last)
+    ks.append("cooperative-console=" + ("yes" if is_coop(line) else "no"))
     return ks
 
 
@@ -174,7 +187,9 @@ def exhaustive(params):
         cfg = ";".join(["~" if not askfirst else hx(ask), hx(login), str(delay), hx(b"u"), "~" if pw is None else hx(pw),
                         "L" + hx(pwp), g.optw(npt), g.optw(T)])
         for stall in range(len(texts) + 1):
-            for dts in itertools.product((0, 1, 3, 4, 5), repeat=min(stall, len(texts))):
+            nst = min(stall, len(texts))
+            grids = [(0, 1, 3, 4, 5)] * min(nst, 2) + [(0, 1, 4)] * max(0, nst - 2)
+            for dts in itertools.product(*grids):
                 for mask in range(1 << 2):
                     outs = []
                     for k, text in enumerate(texts[:stall]):
